@@ -706,7 +706,7 @@ def assemble(unit, drop_hints=()):
             for t, meta in mod_chunks[m]:
                 asm.add(t, **meta)
         else:
-            asm.add("pub mod %s {\nuse super::*;\nbroadcast use {axiom_duplex, bit_commute};\n%s" % (m, "".join("%s\n" % u for u in unit.uses.get(m, []))), kind="gen")
+            asm.add("pub mod %s {\nuse super::*;\n%s%s" % (m, ("broadcast use {%s};\n" % ", ".join(getattr(unit, "broadcasts", ("axiom_duplex", "bit_commute"))) if getattr(unit, "broadcasts", True) else ""), "".join("%s\n" % u for u in unit.uses.get(m, []))), kind="gen")
             for t, meta in mod_chunks[m]:
                 asm.add(t, **meta)
             asm.add("} // mod %s" % m, kind="gen")
